@@ -287,6 +287,52 @@ pub fn worker(tier: &str, k: usize, n: usize, ctx: &mut Ctx) {
       }
     }
   }
+  // a map VALUE that lives on: attached and streamed, then the map returned by map() (a clone
+  // taken after the stream) gets another sourceRoot through the setter and is attached again -
+  // the second source reproduces the attribution of the map it was given, new root included
+  for text in texts(tier) {
+    let (pos, _end) = model::positions(text);
+    let lists = trees::seg_lists(&pos, &KINDS, 2);
+    for segs in lists.into_iter().step_by(11) {
+      for (r1, r2) in [(None, Some("r")), (Some("r"), Some("q/")), (Some("r/"), None), (Some("a"), Some("a/"))] {
+        if !st.mine() || segs.is_empty() {
+          continue;
+        }
+        ctx.evaluations += 1;
+        ctx.states += 1;
+        ctx.count("reused_map_value_cases");
+        let mut m1 = trees::map_spec(segs.clone(), true);
+        m1.root = r1.map(|r| r.to_string());
+        let mut m2 = m1.clone();
+        m2.root = r2.map(|r| r.to_string());
+        let t1 = Term::sms(text, "gen.js", m1.clone());
+        crate::set_current_case(&t1);
+        let r = crate::observe::guarded(|| {
+          use rspack_sources::{MapOptions, Source, SourceMapSource, WithoutOriginalOptions};
+          let first = SourceMapSource::new(WithoutOriginalOptions { value: text.to_string(), name: "gen.js", source_map: m1.to_source_map() });
+          let _ = crate::observe::stream(&first, true, false);
+          let _ = crate::observe::stream(&first, false, true);
+          let mut reused = first.map(&MapOptions::default()).expect("pass-through map");
+          reused.set_source_root(r2.map(|r| r.to_string()));
+          let second = SourceMapSource::new(WithoutOriginalOptions { value: text.to_string(), name: "gen.js", source_map: reused });
+          crate::observe::stream(&second, true, false)
+        });
+        match r {
+          Ok(Ok(s)) => {
+            for &(l, c) in &pos {
+              let want = refcodec::resolve(&m2.segs, l, c).and_then(|sg| expected_attr(&m2, sg));
+              let got = attr_via_segments(&s, l, c, false);
+              if got != want {
+                ctx.violation("reused_map_value_attribution", String::new(), None, || json!({"text": text, "map": serde_json::to_value(&m1).unwrap(), "new_root": r2}), segs.len() + text.len(), format!("after set_source_root({r2:?}) on the map returned by map(): position {l}:{c} of {text:?}: the map says {want:?}, the stream says {got:?}"));
+                break;
+              }
+            }
+          }
+          Ok(Err(e)) | Err(e) => report_panic(ctx, &t1, "reused map value", &e),
+        }
+      }
+    }
+  }
   // more shapes of sourceRoot (several trailing slashes as in "webpack://", only slashes, inner
   // slashes, trailing blank) over every 5th segment list
   for text in texts(tier) {
